@@ -20,6 +20,7 @@ func init() {
 			{ID: "C15.R3", Floor: 3, Doc: "nextIter.next written only inside once.Do; fetchAsync spawns fetch inside oncea.Do", Run: c15r3},
 			{ID: "C15.R4", Floor: 8, Doc: "consumers funnel through Scan; page switch re-enters the same logic; position advanced once per delivered row", Run: c15r4},
 			{ID: "C15.R5", Floor: 1, Doc: "a consumer that drains the iterator with Scan reports success only after finding iter.err nil once the loop has ended", Run: c15r5},
+			{ID: "C15.R6", Floor: 3, Doc: "only the page-switching code reads the position within the page: consumers never conclude 'no more rows' from pos / numRows themselves", Run: c15r6},
 		},
 	})
 }
@@ -545,5 +546,52 @@ func c15r5(p *Program, r *Report) {
 	})
 	if n == 0 {
 		r.Unresolved("no Iter method that drains the iterator with a Scan loop and returns an error was found")
+	}
+}
+
+// c15r6: the end of a page is not the end of the result. Iter.Scan and Scanner.Next (with the helpers they are split
+// into) and WillSwitchPage own the test `pos >= numRows`, because they follow it by the switch to the next page. Any
+// other method of Iter that reads Iter.pos can only mistake a page boundary for the end of the rows.
+func c15r6(p *Program, r *Report) {
+	posF := p.Field("Iter", "pos")
+	owners := map[*FuncInfo]bool{}
+	for _, name := range []string{"(*Iter).Scan", "(*iterScanner).Next", "(*Iter).WillSwitchPage"} {
+		if fi := p.Func(name); fi != nil {
+			for _, u := range p.unitsOf(fi) {
+				owners[u] = true
+			}
+		}
+	}
+	n := 0
+	p.forEachFunc(false, func(fi *FuncInfo) {
+		if fi.Pkg != p.Root || fi.Decl.Body == nil {
+			return
+		}
+		info := fi.Pkg.TypesInfo
+		reads := false
+		var at ast.Node
+		inspectNoLit(fi.Decl.Body, func(x ast.Node) bool {
+			if sel, ok := x.(*ast.SelectorExpr); ok && fieldOf(info, sel) == posF {
+				// a pure store (iter.pos = 0 when a page is installed) is not a read
+				if as, isAs := p.Parent(sel).(*ast.AssignStmt); isAs {
+					for _, l := range as.Lhs {
+						if l == ast.Expr(sel) && as.Tok == token.ASSIGN {
+							return true
+						}
+					}
+				}
+				reads, at = true, sel
+			}
+			return true
+		})
+		if !reads {
+			return
+		}
+		n++
+		r.Check(owners[fi], at, fi.Name+" may read the position within the page", "page-switching code (Scan, Scanner.Next, WillSwitchPage and their helpers)",
+			fi.Name+" reads Iter.pos, although it does not switch pages: a test on the position treats the end of the current page as the end of the result, so iteration stops after the first page (and a failed fetch of the next page is never reported)")
+	})
+	if n == 0 {
+		r.Unresolved("nothing reads Iter.pos")
 	}
 }
